@@ -57,9 +57,20 @@ package nsqlookupd
 //@   requires validP(p) && validC(client)
 //@   ensures fatalOrNil(result1)
 //@   ensures[once] old(client.peerInfo) != nil ==> isFatal(result1, "E_INVALID")
+//@   ensures[identity] result1 == nil ==> client.peerInfo != nil && client.peerInfo.id == addrString(remoteOf(client.Conn))
+//@   ensures[rejected-unchanged] result1 != nil ==> client.peerInfo == old(client.peerInfo)
 
+// When the connection ends - for whatever reason - the peer's registrations are looked up and each
+// one is removed (the look-up and one removal per returned key happen on every path to the return).
+//@ ghost lookedUpID string
+//@ ghost lookedUpLen int
+//@ ghost removedSinceLookup int
 //@ func (p *LookupProtocolV1) IOLoop(c protocol.Client) error
-//@   props C15
+//@   props C15 C14
+//@   ensures[cleanup] unbox(c, "*ClientV1").peerInfo != nil ==> lookedUpID == unbox(c, "*ClientV1").peerInfo.id && removedSinceLookup == lookedUpLen
+//@   loop 1
+//@     invariant client.peerInfo != nil && lookedUpID == client.peerInfo.id && lookedUpLen == len(registrations)
+//@     invariant removedSinceLookup == rangeindex + 1 && rangeindex < len(registrations)
 //@   requires validP(p) && dyntype(c) == typetag("*ClientV1") && validC(unbox(c, "*ClientV1"))
 
 //@ func (rr Registrations) Keys() []string
@@ -103,7 +114,8 @@ package nsqlookupd
 
 //@ func (r *RegistrationDB) RemoveProducer(k Registration, id string) (bool, int)
 //@   props C14 C15
-//@   modifies r.registrationMap, mapstore(map[Registration]ProducerMap), mapstore(ProducerMap)
+//@   modifies r.registrationMap, mapstore(map[Registration]ProducerMap), mapstore(ProducerMap), removedSinceLookup
+//@   onreturn removedSinceLookup := removedSinceLookup + 1
 //@   ghostparam gk Registration
 //@   ghostparam gid string
 //@   requires r != nil
@@ -154,7 +166,16 @@ package nsqlookupd
 //@   props C14 C15
 //@   requires r != nil
 //@   ensures[sound] forall i int :: {result[i]} 0 <= i && i < len(result) ==> atunlock(hasProd(r, now(result[i]), id))
-//@   modifies r.registrationMap, mapstore(map[Registration]ProducerMap), mapstore(ProducerMap)
+//@   modifies r.registrationMap, mapstore(map[Registration]ProducerMap), mapstore(ProducerMap), lookedUpID, lookedUpLen, removedSinceLookup
+//@   onreturn lookedUpID := id
+//@   onreturn lookedUpLen := len(result)
+//@   onreturn removedSinceLookup := 0
 //@   loop 0
 //@     invariant fresh(results)
 //@     invariant forall i int :: {results[i]} 0 <= i && i < len(results) ==> hasProd(r, results[i], id)
+
+//@ func (p *Producer) Tombstone()
+//@   props C14
+//@   requires p != nil
+//@   ensures[marked] p.tombstoned && p.tombstonedAt == lastNow
+//@   modifies p.tombstoned, p.tombstonedAt, lastNow
